@@ -20,6 +20,18 @@
 //! renamed to trash after a compaction — D-5; both repaired since, cursor lifetime is C07's); in
 //! the other half they overlap them.
 //!
+//! Writes that FAIL are client operations too: the empty batch (the log refuses it, `empty-batch`) and
+//! a batch whose last entry has an over-long key or value (`key-too-large` / `value-too-large`), both
+//! refused after the write has taken its sequence number and its place in the wait list.  The hooks
+//! of hooks/lsmtk-kvs-write-failed-events.diff record where such a write fails and where it leaves
+//! the list (`kvs.write.abandon[.locked]` = the model's `wFail`); the oracle asks that it returns
+//! that error, that nothing of it is ever read, and that every other operation obeys the same
+//! rules as without it.  Directed: a failing write queued behind a batch parked between two of its
+//! inserts, readers in the window; a failing write parked AT THE HEAD of the list with two writers
+//! asleep behind it.  A run whose clients stop making progress is cut off and classified from the
+//! event log (`write-failed-at-head-with-successor-waiting`: the head of the wait list sleeps
+//! because the write that left before it failed and woke nobody).
+//!
 //! A reader's clone of the tree version (`tree.snapshot`, hooks/lsmtk-kvs-snapshot-event.diff) is a
 //! step of its own in the trace and in the model.  The code makes it inside the critical section in
 //! which it takes mem / imm; the driver checks that no step needing the store mutex falls between
@@ -41,6 +53,9 @@ use std::time::{Duration, Instant};
 
 const D6: &str = "snapshot-while-batch-mid-insert";
 const D16: &str = "duplicate-key-in-batch";
+/// a write fails while it is the head of the wait list and the ticket behind it has already gone to
+/// sleep (`naked_wait`): as found nobody wakes that ticket
+const LOST_HANDOFF: &str = "write-failed-at-head-with-successor-waiting";
 
 /// sorted (byte order) key alphabet; a case uses a sorted subset and names keys by their index
 const KEYS: [&[u8]; 10] = [b"", b"a", b"a\0", b"aa", b"ab", b"b", b"b\xff", b"m", b"z", b"\xff"];
@@ -197,6 +212,23 @@ impl Sched {
         d.blocks[i].open = true;
         self.dir_cv.notify_all();
     }
+    fn passed_len(&self) -> usize {
+        self.dir.lock().unwrap().passed.len()
+    }
+    /// at least `n` points with one of `tags` have been passed since position `from` — waiting at
+    /// most `patience` for it
+    fn wait_passed_since(&self, from: usize, tags: &[&str], n: usize, patience: Duration) -> bool {
+        let deadline = Instant::now() + patience;
+        let mut d = self.dir.lock().unwrap();
+        while d.passed.iter().skip(from).filter(|p| tags.contains(&p.0)).count() < n {
+            let left = deadline.saturating_duration_since(Instant::now());
+            if left.is_zero() {
+                return false;
+            }
+            d = self.dir_cv.wait_timeout(d, left).unwrap().0;
+        }
+        true
+    }
     fn release_all(&self) {
         let mut d = self.dir.lock().unwrap();
         for b in d.blocks.iter_mut() {
@@ -317,9 +349,39 @@ fn install_hook() {
 enum Op {
     /// entries: (key index, Some(value id) | None = delete); one entry = `put` / `del`
     Write(Vec<(usize, Option<u64>)>),
+    /// a write the store must refuse after it has linked it into the wait list: the entries, then
+    /// (kind 1) an entry whose key is one byte over `MAX_KEY_LEN` / (kind 2) whose value is one byte
+    /// over `MAX_VALUE_LEN`; kind 0 = the empty batch (no entries)
+    FailWrite(u8, Vec<(usize, Option<u64>)>),
     Get(usize),
     /// inclusive key-index range
     Scan(usize, usize),
+}
+
+impl Op {
+    fn is_write(&self) -> bool {
+        matches!(self, Op::Write(_) | Op::FailWrite(..))
+    }
+}
+
+/// the error the store must answer a failing write with
+fn fail_code(kind: u8) -> &'static str {
+    match kind {
+        0 => "empty-batch",
+        1 => "key-too-large",
+        _ => "value-too-large",
+    }
+}
+
+/// the code of an error of the store (`(code <x>)` of its s-expression)
+fn err_code<E: std::fmt::Debug>(e: E) -> String {
+    let s = format!("{:?}", e);
+    for code in ["empty-batch", "key-too-large", "value-too-large", "table-full"] {
+        if s.contains(&format!("Atom(\"{}\")", code)) {
+            return code.to_string();
+        }
+    }
+    errs(s)
 }
 
 #[derive(Clone, Debug)]
@@ -421,6 +483,29 @@ fn do_op(w: &World, cid: u64, idx: u64, op: &Op) -> OpRec {
                 Err(m) => Res::Panic(m),
             }
         }
+        Op::FailWrite(kind, es) => {
+            lsmtk::verif::emit("c06.inv", [cid, idx, 0]);
+            let r = guarded(AssertUnwindSafe(|| {
+                let mut wb = lsmtk::WriteBatch::with_capacity(es.len() + 1);
+                for (k, v) in es {
+                    match v {
+                        Some(vid) => wb.put(&w.keys[*k], &value_bytes(*vid, w.pad)),
+                        None => wb.del(&w.keys[*k]),
+                    }
+                }
+                match kind {
+                    0 => {}
+                    1 => wb.put(&vec![b'k'; sst::MAX_KEY_LEN + 1], b"x"),
+                    _ => wb.put(b"\xff\xffover-long-value", &vec![b'.'; sst::MAX_VALUE_LEN + 1]),
+                }
+                w.kvs.write(wb)
+            }));
+            lsmtk::verif::emit("c06.resp", [cid, idx, 0]);
+            match r {
+                Ok(r) => Res::W(r.map_err(err_code)),
+                Err(m) => Res::Panic(m),
+            }
+        }
         Op::Get(k) => {
             lsmtk::verif::emit("c06.inv", [cid, idx, 0]);
             let r = guarded(AssertUnwindSafe(|| {
@@ -448,6 +533,9 @@ fn do_op(w: &World, cid: u64, idx: u64, op: &Op) -> OpRec {
     OpRec { cid, idx, op: op.clone(), res }
 }
 
+/// client operations completed so far, all runs (progress, for the monitor of a random run)
+static OPS_DONE: std::sync::atomic::AtomicU64 = std::sync::atomic::AtomicU64::new(0);
+
 fn client_main(w: Arc<World>, cid: u64, ops: Vec<Op>, rng: Rng, level: u64, jitter: u64) -> Vec<OpRec> {
     enter_thread(&w.sched, rng.clone(), level);
     lsmtk::verif::emit("c06.client", [cid, 0, 0]);
@@ -463,6 +551,7 @@ fn client_main(w: Arc<World>, cid: u64, ops: Vec<Op>, rng: Rng, level: u64, jitt
             }
         }
         out.push(do_op(&w, cid, i as u64, op));
+        OPS_DONE.fetch_add(1, Ordering::SeqCst);
     }
     leave_thread();
     out
@@ -560,6 +649,13 @@ struct Stats {
     events: u64,
     tree_snapshots: u64,
     tree_snapshots_between_install_and_clear: u64,
+    failed_writes: u64,
+    failed_at_head: u64,
+    failed_at_head_with_successor_asleep: u64,
+    failed_behind_batch_mid_insert: u64,
+    failed_left_out_of_turn: u64,
+    snaps_with_failed_write_linked: u64,
+    writers_that_slept_in_the_wait_list: u64,
 }
 
 struct Analysis {
@@ -578,7 +674,13 @@ struct WInfo {
     begin: usize,
     finish: Option<usize>,
     entries: Vec<(usize, Option<u64>)>,
+    /// a write that must fail: its kind; `finish` is then where it left the wait list
+    fail: Option<u8>,
 }
+
+/// a ticket of the wait list: a writer (its sequence number) or the flush thread (the number of
+/// the memtable it has just created)
+type Tk = (bool, u64);
 
 struct RInfo {
     rid: u64,
@@ -691,6 +793,13 @@ fn analyse(h: &History) -> Analysis {
     let mut panic_line: Option<String> = None;
     let mut last_ts: u64 = h.seq0;
     let mut unmapped: Vec<String> = vec![];
+    // the wait list as the events show it: tickets in link order, which of them have gone to sleep
+    // (`naked_wait`), batch lengths, and how the ticket that left last left
+    let mut queue: Vec<Tk> = vec![];
+    let mut asleep: BTreeSet<Tk> = BTreeSet::new();
+    let mut blen: HashMap<u64, usize> = HashMap::new();
+    let mut failing_linked: BTreeSet<u64> = BTreeSet::new();
+    let mut last_leave: Option<(Tk, bool)> = None; // (ticket, it was a failed write)
     for (pos, (_, th, tag, a)) in h.events.iter().enumerate() {
         if panic_line.is_some() {
             break;
@@ -713,7 +822,7 @@ fn analyse(h: &History) -> Analysis {
                 // too; those are not steps of the model)
                 if let Some(k) = cur.get(th) {
                     if let Some(o) = ops.get(k) {
-                        if !matches!(o.op, Op::Write(_)) && !snapped.contains(k) {
+                        if !o.op.is_write() && !snapped.contains(k) {
                             toks.push(format!("T{},{}", rid_of(k.0, k.1), a[0]));
                             st.tree_snapshots += 1;
                             if installed_now {
@@ -749,22 +858,77 @@ fn analyse(h: &History) -> Analysis {
                     r.resp = pos;
                 }
             }
-            "kvs.write.begin.locked" => match cur.get(th).and_then(|k| ops.get(k).map(|o| (*k, *o))) {
+            "kvs.write.begin.locked" => {
+              // (the wait list is followed for every write, also those of clients that never returned)
+              queue.push((false, a[0]));
+              blen.insert(a[0], a[2] as usize);
+              match cur.get(th).and_then(|k| ops.get(k).map(|o| (*k, *o))) {
                 Some((key, o)) => {
-                    if let Op::Write(es) = &o.op {
+                    let (es, fail) = match &o.op {
+                        Op::Write(es) => (Some(es), None),
+                        Op::FailWrite(kind, es) => (Some(es), Some(*kind)),
+                        _ => (None, None),
+                    };
+                    if let Some(es) = es {
+                        // (the over-long last entry of a failing batch is not an entry of the model's
+                        // batch: nothing of a failing write is ever inserted)
                         toks.push(format!("B{},{},{}", a[0], a[1], render_batch(es)));
-                        winfo.insert(key, WInfo { rid: rid_of(key.0, key.1), seq: a[0], inv: inv_at[&key], resp: usize::MAX, begin: pos, finish: None, entries: es.clone() });
+                        winfo.insert(key, WInfo { rid: rid_of(key.0, key.1), seq: a[0], inv: inv_at[&key], resp: usize::MAX, begin: pos, finish: None, entries: es.clone(), fail });
                         in_flight.insert(a[0]);
+                        if fail.is_some() {
+                            failing_linked.insert(a[0]);
+                        }
                         st.max_in_flight = st.max_in_flight.max(in_flight.len() as u64);
-                        if a[2] as usize != es.len() {
-                            unmapped.push(format!("write {} began with {} entries, op has {}", a[0], a[2], es.len()));
+                        let want = es.len() + if matches!(fail, Some(k) if k > 0) { 1 } else { 0 };
+                        if a[2] as usize != want {
+                            unmapped.push(format!("write {} began with {} entries, op has {}", a[0], a[2], want));
                         }
                     } else {
                         unmapped.push(format!("write event in a read op at {}", pos));
                     }
                 }
                 None => unmapped.push(format!("write began outside any client op at {}", pos)),
-            },
+              }
+            }
+            "kvs.write.linked" => {}
+            "kvs.write.failed" => {
+                // where the write fails: is a batch ahead of it in the list between two of its inserts?
+                let me: Tk = (false, a[0]);
+                if queue.iter().take_while(|t| **t != me).any(|t| !t.0 && { let n = *inserted.get(&t.1).unwrap_or(&0) as usize; n >= 1 && n < *blen.get(&t.1).unwrap_or(&0) }) {
+                    st.failed_behind_batch_mid_insert += 1;
+                }
+            }
+            "kvs.write.wait.locked" => {
+                if asleep.insert((false, a[0])) {
+                    st.writers_that_slept_in_the_wait_list += 1;
+                }
+            }
+            "kvs.flush.wait.locked" => {
+                asleep.insert((true, a[0]));
+            }
+            "kvs.write.abandon" | "kvs.write.abandon.locked" => {
+                toks.push(format!("X{}", a[0]));
+                let me: Tk = (false, a[0]);
+                st.failed_writes += 1;
+                if queue.first() == Some(&me) {
+                    st.failed_at_head += 1;
+                    if queue.iter().skip(1).any(|t| asleep.contains(t)) {
+                        st.failed_at_head_with_successor_asleep += 1;
+                    }
+                } else {
+                    st.failed_left_out_of_turn += 1;
+                }
+                queue.retain(|t| *t != me);
+                asleep.remove(&me);
+                failing_linked.remove(&a[0]);
+                last_leave = Some((me, true));
+                in_flight.remove(&a[0]);
+                if let Some(k) = cur.get(th) {
+                    if let Some(w) = winfo.get_mut(k) {
+                        w.finish = Some(pos);
+                    }
+                }
+            }
             "kvs.write.logged" => toks.push(format!("L{}", a[0])),
             "kvs.write.insert" => {
                 toks.push(format!("I{},{}", a[0], a[1]));
@@ -773,6 +937,9 @@ fn analyse(h: &History) -> Analysis {
             "kvs.write.finish.locked" => {
                 toks.push(format!("F{}", a[0]));
                 in_flight.remove(&a[0]);
+                queue.retain(|t| *t != (false, a[0]));
+                asleep.remove(&(false, a[0]));
+                last_leave = Some(((false, a[0]), false));
                 if let Some(k) = cur.get(th) {
                     if let Some(w) = winfo.get_mut(k) {
                         w.finish = Some(pos);
@@ -780,12 +947,16 @@ fn analyse(h: &History) -> Analysis {
                 }
             }
             "kvs.flush.rotate.locked" => {
+                queue.push((true, a[0]));
                 toks.push(format!("R{},{}", a[0], a[1]));
                 st.rotations += 1;
                 imm_now = true;
                 rotated_waiting = true;
             }
             "kvs.flush.head.locked" => {
+                queue.retain(|t| *t != (true, a[0]));
+                asleep.remove(&(true, a[0]));
+                last_leave = Some(((true, a[0]), false));
                 toks.push(format!("H{}", a[0]));
                 rotated_waiting = false;
                 flush_thread = Some(*th);
@@ -807,6 +978,9 @@ fn analyse(h: &History) -> Analysis {
                         st.snaps += 1;
                         if !in_flight.is_empty() {
                             st.snaps_with_writer_in_flight += 1;
+                        }
+                        if !failing_linked.is_empty() {
+                            st.snaps_with_failed_write_linked += 1;
                         }
                         if imm_now {
                             st.snaps_with_imm += 1;
@@ -884,6 +1058,13 @@ fn analyse(h: &History) -> Analysis {
                     st.batches += 1;
                 }
             }
+            (Op::FailWrite(kind, _), res) => match res {
+                // a failing write returns its error, and exactly that one
+                Res::W(Err(e)) if e == fail_code(*kind) => {}
+                Res::W(Err(e)) => fails.push(("failing-write-wrong-error".into(), format!("op {}.{}: expected {}, got {}", o.cid, o.idx, fail_code(*kind), e))),
+                Res::W(Ok(())) => fails.push(("failing-write-succeeded".into(), format!("op {}.{} {:?}", o.cid, o.idx, o.op))),
+                _ => {}
+            },
             (Op::Get(_), _) => st.gets += 1,
             (Op::Scan(..), _) => st.scans += 1,
         }
@@ -896,7 +1077,7 @@ fn analyse(h: &History) -> Analysis {
         };
         match &o.res {
             Res::Panic(m) => fails.push((if dup { D16.into() } else { "panic".into() }, format!("op {}.{} {:?} panicked: {}", o.cid, o.idx, o.op, m))),
-            Res::W(Err(e)) => fails.push(("write-error".into(), format!("op {}.{}: {}", o.cid, o.idx, e))),
+            Res::W(Err(e)) if !matches!(o.op, Op::FailWrite(..)) => fails.push(("write-error".into(), format!("op {}.{}: {}", o.cid, o.idx, e))),
             Res::G(Err(e)) | Res::S(Err(e)) => fails.push(("read-error".into(), format!("op {}.{}: {}", o.cid, o.idx, e))),
             Res::S(Ok(es)) => {
                 if es.iter().any(|e| e.1.is_none()) {
@@ -918,19 +1099,30 @@ fn analyse(h: &History) -> Analysis {
         fails.push(("background-thread-error".into(), e.clone()));
     }
     if let Some(s) = &h.stuck {
-        fails.push(("stuck".into(), s.clone()));
+        // who sleeps at the head of the wait list, and how did the ticket before it leave?
+        let name = |t: &Tk| if t.0 { format!("the flush thread (memtable {})", t.1) } else { format!("write {}", t.1) };
+        match (queue.first(), last_leave) {
+            (Some(hd), Some((left, true))) if asleep.contains(hd) => fails.push((
+                LOST_HANDOFF.into(),
+                format!("{}; the wait list holds {} ticket(s); its head, {}, went to sleep in naked_wait behind write {} — which then failed and left the list without waking anybody; {} ticket(s) sleep behind it", s, queue.len(), name(hd), left.1, queue.iter().skip(1).filter(|t| asleep.contains(t)).count()),
+            )),
+            (Some(hd), _) if asleep.contains(hd) => fails.push(("head-of-wait-list-asleep".into(), format!("{}; the head of the wait list, {}, sleeps and nobody is going to wake it", s, name(hd)))),
+            _ => fails.push(("stuck".into(), s.clone())),
+        }
     }
     for u in unmapped.iter().take(3) {
         fails.push(("trace-unmappable".into(), u.clone()));
     }
     let clean = fails.is_empty();
-    let ws: Vec<&WInfo> = winfo.values().collect();
+    // the oracle's writes are the ones that succeed; the failing ones must leave no trace
+    let ws: Vec<&WInfo> = winfo.values().filter(|w| w.fail.is_none()).collect();
+    let fs: Vec<&WInfo> = winfo.values().filter(|w| w.fail.is_some()).collect();
     let rs: Vec<&RInfo> = rinfo.values().collect();
     if clean {
         for o in &h.ops {
             let k = (o.cid, o.idx);
             let mapped = match o.op {
-                Op::Write(_) => winfo.get(&k).map(|w| w.finish.is_some() && w.resp != usize::MAX).unwrap_or(false),
+                Op::Write(_) | Op::FailWrite(..) => winfo.get(&k).map(|w| w.finish.is_some() && w.resp != usize::MAX).unwrap_or(false),
                 _ => rinfo.get(&k).map(|r| r.ts.is_some() && r.resp != usize::MAX).unwrap_or(false),
             };
             if !mapped {
@@ -950,6 +1142,18 @@ fn analyse(h: &History) -> Analysis {
             for b in &ws {
                 if a.resp < b.inv && a.seq > b.seq {
                     fails.push(("write-order".into(), format!("write {} (seq {}) returned before write {} (seq {}) was invoked", a.rid, a.seq, b.rid, b.seq)));
+                }
+            }
+        }
+        // a failed write has no effect on any read: none of its values is ever returned
+        for f in &fs {
+            for (k, v) in &f.entries {
+                if let Some(v) = v {
+                    for r in &rs {
+                        if r.seen.iter().any(|sn| sn.0 == *k && sn.1 == Some(*v)) {
+                            fails.push(("failed-write-visible".into(), format!("read {} of key {} returned value {} of write {} (seq {}), which failed", r.rid, k, v, f.rid, f.seq)));
+                        }
+                    }
                 }
             }
         }
@@ -1138,10 +1342,25 @@ fn vid(cid: u64, idx: u64, j: u64) -> u64 {
     (cid + 1) * 1_000_000 + idx * 10 + j
 }
 
-fn gen_ops(rng: &mut Rng, cid: u64, n: usize, nkeys: usize, mix: u64) -> Vec<Op> {
+fn gen_ops(rng: &mut Rng, cid: u64, n: usize, nkeys: usize, mix: u64, fail_pct: u64) -> Vec<Op> {
     let mut ops = vec![];
     for i in 0..n {
         let idx = i as u64;
+        if fail_pct > 0 && rng.below(100) < fail_pct {
+            // a write the store must refuse: the empty batch, or 1..3 valid entries and then one
+            // whose key / value is too long
+            let kind = *rng.pick(&[0u8, 0, 1, 1, 2]);
+            let es: Vec<(usize, Option<u64>)> = if kind == 0 {
+                vec![]
+            } else {
+                let n = (rng.range(1, 3) as usize).min(nkeys);
+                let mut ks: Vec<usize> = (0..nkeys).collect();
+                rng.shuffle(&mut ks);
+                ks.into_iter().take(n).enumerate().map(|(j, k)| (k, if rng.chance(1, 4) { None } else { Some(vid(cid, idx, j as u64)) })).collect()
+            };
+            ops.push(Op::FailWrite(kind, es));
+            continue;
+        }
         let r = rng.below(100);
         // mix 0: balanced; 1: write-heavy with many batches; 2: read-heavy
         let (p_put, p_del, p_batch, p_get) = match mix {
@@ -1170,6 +1389,35 @@ fn gen_ops(rng: &mut Rng, cid: u64, n: usize, nkeys: usize, mix: u64) -> Vec<Op>
         ops.push(op);
     }
     ops
+}
+
+/// the wait list as the events so far show it: does its head sleep (it went into `naked_wait`
+/// while another ticket was head, that ticket has left since, and nothing has been heard of it)?
+fn head_of_wait_list_asleep(events: &[Event]) -> bool {
+    let mut queue: Vec<Tk> = vec![];
+    let mut asleep: BTreeSet<Tk> = BTreeSet::new();
+    for (_, _, tag, a) in events {
+        match *tag {
+            "kvs.write.begin.locked" => queue.push((false, a[0])),
+            "kvs.flush.rotate.locked" => queue.push((true, a[0])),
+            "kvs.write.wait.locked" => {
+                asleep.insert((false, a[0]));
+            }
+            "kvs.flush.wait.locked" => {
+                asleep.insert((true, a[0]));
+            }
+            "kvs.write.finish.locked" | "kvs.write.abandon" | "kvs.write.abandon.locked" => {
+                queue.retain(|t| *t != (false, a[0]));
+                asleep.remove(&(false, a[0]));
+            }
+            "kvs.flush.head.locked" => {
+                queue.retain(|t| *t != (true, a[0]));
+                asleep.remove(&(true, a[0]));
+            }
+            _ => {}
+        }
+    }
+    queue.first().map(|h| asleep.contains(h)).unwrap_or(false)
 }
 
 struct RandomOut {
@@ -1209,7 +1457,9 @@ fn run_random(seed: u64, case: u64, thorough: bool, completed: bool) -> Result<R
     let gated = rng.chance(1, 2);
     let cfg = store_cfg(&mut rng, mem_bytes);
     let keys = pick_keys(&mut rng, nkeys);
-    let desc = format!("clients={} compactors={} keys={} ops={} mem={} pad={} yield={} jitter={} mix={} scan-gate={} {}", clients, compactors, nkeys, nops, mem_bytes, pad, level, jitter, mix, gated, cfg.render());
+    // writes that fail: in none / few / many of the operations of this run
+    let fail_pct = *Rng::for_case(seed, 4, case).pick(&[0u64, 0, 3, 3, 12, 30]);
+    let desc = format!("clients={} compactors={} keys={} ops={} mem={} pad={} yield={} jitter={} mix={} scan-gate={} failing-writes={}% {}", clients, compactors, nkeys, nops, mem_bytes, pad, level, jitter, mix, gated, fail_pct, cfg.render());
     lsmtk::verif::versions_reset();
     let (w, root) = open_world(&format!("c06r{}", case), &cfg, keys.clone(), pad, false, gated)?;
     let _ = lsmtk::verif::take_events();
@@ -1236,7 +1486,7 @@ fn run_random(seed: u64, case: u64, thorough: bool, completed: bool) -> Result<R
         let w = Arc::clone(&w);
         let tx = tx.clone();
         let barrier = Arc::clone(&barrier);
-        let ops = gen_ops(&mut Rng::for_case(seed, 100 + cid, case), cid, nops, nkeys, mix);
+        let ops = gen_ops(&mut Rng::for_case(seed, 100 + cid, case), cid, nops, nkeys, mix, fail_pct);
         let r = Rng::for_case(seed, 500 + cid, case);
         std::thread::spawn(move || {
             barrier.wait();
@@ -1249,22 +1499,43 @@ fn run_random(seed: u64, case: u64, thorough: bool, completed: bool) -> Result<R
     let mut ops: Vec<OpRec> = vec![];
     let mut finished = 0;
     let mut stuck = None;
+    // the log is drained as the run goes; no operation finished and no event for a while = no progress
+    let mut events: Vec<Event> = vec![];
+    let mut last_done = OPS_DONE.load(Ordering::SeqCst);
+    let mut last_progress = Instant::now();
     while finished < clients {
-        match rx.recv_timeout(deadline.saturating_duration_since(Instant::now())) {
+        match rx.recv_timeout(Duration::from_millis(200)) {
             Ok(r) => {
                 ops.extend(r);
                 finished += 1;
+                last_progress = Instant::now();
+                continue;
             }
-            Err(_) => {
-                stuck = Some(format!("{} of {} clients did not finish", clients - finished, clients));
+            Err(std::sync::mpsc::RecvTimeoutError::Disconnected) => {
+                stuck = Some(format!("{} of {} clients ended without a result", clients - finished, clients));
                 break;
             }
+            Err(_) => {}
+        }
+        let done = OPS_DONE.load(Ordering::SeqCst);
+        let mut fresh = lsmtk::verif::take_events();
+        // (the polled flush / compaction loops emit events all the time: only client progress counts)
+        if done != last_done {
+            last_done = done;
+            last_progress = Instant::now();
+        }
+        events.append(&mut fresh);
+        let quiet = last_progress.elapsed();
+        // a head of the wait list that sleeps is woken by nobody: no need to wait long for that
+        if (quiet > Duration::from_secs(5) && head_of_wait_list_asleep(&events)) || quiet > Duration::from_secs(60) || Instant::now() > deadline {
+            stuck = Some(format!("{} of {} clients did not finish: no client operation returned for {} s", clients - finished, clients, quiet.as_secs()));
+            break;
         }
     }
     if stuck.is_some() {
         // threads may be parked inside the store for ever: leave them and the store behind
         lsmtk::verif::events_enable(false);
-        let events = lsmtk::verif::take_events();
+        events.append(&mut lsmtk::verif::take_events());
         stop_flush.store(true, Ordering::SeqCst);
         stop_comp.store(true, Ordering::SeqCst);
         let hist = History { completed, seq0, mem0, keys, ops, events, explicit_looks: false, look_obs: vec![], end_state: (0, 0, false), bg_errors: errors.lock().unwrap().clone(), stuck };
@@ -1279,7 +1550,7 @@ fn run_random(seed: u64, case: u64, thorough: bool, completed: bool) -> Result<R
     }
     ops.extend(final_reads(&w, clients, nkeys));
     lsmtk::verif::events_enable(false);
-    let events = lsmtk::verif::take_events();
+    events.append(&mut lsmtk::verif::take_events());
     let (s, m, _, imm) = w.kvs.verif_state();
     let bg_errors = errors.lock().unwrap().clone();
     let compactions = *ncomp.lock().unwrap();
@@ -1387,6 +1658,19 @@ fn spawn_client(w: &Arc<World>, cid: u64, ops: Vec<Op>) -> std::thread::JoinHand
     std::thread::spawn(move || client_main(w, cid, ops, Rng::new(cid), 0, 0))
 }
 
+/// join a client thread, waiting at most `secs` for it (a thread that does not come back is left
+/// behind, asleep inside the store)
+fn join_bounded(t: std::thread::JoinHandle<Vec<OpRec>>, secs: u64) -> Option<Vec<OpRec>> {
+    let deadline = Instant::now() + Duration::from_secs(secs);
+    while !t.is_finished() {
+        if Instant::now() > deadline {
+            return None;
+        }
+        std::thread::sleep(Duration::from_millis(2));
+    }
+    t.join().ok()
+}
+
 struct DirectedOut {
     hist: History,
     desc: String,
@@ -1395,7 +1679,9 @@ struct DirectedOut {
 /// variant 0: snapshot between two inserts of one batch; 1: a writer in flight at scan-open time
 /// finishes while the cursor is open; 2: a batch fully inserted behind a slower, earlier writer;
 /// 3: the probe (one put parked after its log append, one load); 4: a reader parked right after it
-/// cloned the tree version while the flush thread installs its version and clears `imm`
+/// cloned the tree version while the flush thread installs its version and clears `imm`; 5: a write
+/// that fails while it is queued behind a batch parked between two of its inserts, readers in the
+/// window; 6: a write that fails as HEAD of the wait list while two writers sleep behind it
 fn run_directed(seed: u64, case: u64, variant: u64, completed: bool) -> Result<DirectedOut, String> {
     let mut rng = Rng::for_case(seed, 1, case);
     let nkeys = rng.range(3, 6) as usize;
@@ -1559,6 +1845,93 @@ fn run_directed(seed: u64, case: u64, variant: u64, completed: bool) -> Result<D
             d.get(a);
             d.get(c);
         }
+        5 => {
+            let kind = *rng.pick(&[0u8, 0, 1, 2]);
+            let three = rng.chance(1, 3);
+            let after = if three { rng.below(2) } else { 0 };
+            desc = format!("failing-write-behind-batch-mid-insert keys={} batch={} parked-after-insert={} failing={} prepopulated={}", nkeys, if three { 3 } else { 2 }, after, fail_code(kind), prepopulate);
+            if prepopulate {
+                d.put(a);
+                d.put(b);
+                d.put(c);
+            }
+            let blk = w.sched.block("kvs.write.insert", u64::MAX, after);
+            let mut es = vec![(a, Some(vid(1, 0, 0))), (b, Some(vid(1, 0, 1)))];
+            if three {
+                es.push((c, Some(vid(1, 0, 2))));
+            }
+            let t1 = spawn_client(&w, 1, vec![Op::Write(es)]);
+            if !w.sched.wait_hit(blk) {
+                stuck = Some("the batch writer never reached its insert".into());
+            }
+            let from = w.sched.passed_len();
+            // the failing write names a key of the parked batch (its value must never show)
+            let fes = if kind == 0 { vec![] } else { vec![(b, Some(vid(2, 0, 0)))] };
+            let t2 = spawn_client(&w, 2, vec![Op::FailWrite(kind, fes)]);
+            // it fails behind the parked batch.  The repaired store makes it wait for its turn (it
+            // goes to sleep in the wait list); the store as found lets it leave at once.
+            if !w.sched.wait_passed_since(from, &["kvs.write.failed", "kvs.write.finish.locked"], 1, Duration::from_secs(30)) {
+                stuck = Some("the failing write never failed".into());
+            }
+            // (… until it sleeps there or has left: a bounded wait, the window is the same either way)
+            let _ = w.sched.wait_passed_since(from, &["kvs.write.wait.locked", "kvs.write.abandon.locked", "kvs.write.finish.locked"], 1, Duration::from_millis(300));
+            let _ = w.kvs.verif_state();
+            d.scan(0, nkeys - 1);
+            d.get(a);
+            d.get(b);
+            w.sched.release(blk);
+            for (n, t) in [(1, t1), (2, t2)] {
+                match join_bounded(t, 30) {
+                    Some(r) => others.extend(r),
+                    None => stuck = Some(format!("client {} did not return within 30 s of the batch writer's release", n)),
+                }
+            }
+            d.scan(0, nkeys - 1);
+            d.get(b);
+        }
+        6 => {
+            let kind = *rng.pick(&[0u8, 0, 1, 2]);
+            desc = format!("failing-write-at-head-with-successors-asleep keys={} failing={} prepopulated={}", nkeys, fail_code(kind), prepopulate);
+            if prepopulate {
+                d.put(a);
+                d.put(c);
+            }
+            // the failing write parks right after it has taken its place: it is the head
+            let blk = w.sched.block("kvs.write.linked", u64::MAX, u64::MAX);
+            let fes = if kind == 0 { vec![] } else { vec![(a, Some(vid(1, 0, 0)))] };
+            let t1 = spawn_client(&w, 1, vec![Op::FailWrite(kind, fes)]);
+            if !w.sched.wait_hit(blk) {
+                stuck = Some("the failing writer never took its place in the wait list".into());
+            }
+            let from = w.sched.passed_len();
+            let t2 = spawn_client(&w, 2, vec![Op::Write(vec![(a, Some(vid(2, 0, 0))), (b, Some(vid(2, 0, 1)))])]);
+            if !w.sched.wait_passed_since(from, &["kvs.write.wait.locked"], 1, Duration::from_secs(30)) {
+                stuck = Some("the second writer never queued behind the head".into());
+            }
+            let t3 = spawn_client(&w, 3, vec![Op::Write(vec![(c, Some(vid(3, 0, 0)))])]);
+            if !w.sched.wait_passed_since(from, &["kvs.write.wait.locked"], 2, Duration::from_secs(30)) {
+                stuck = Some("the third writer never queued behind the head".into());
+            }
+            // both have given the store mutex up in `naked_wait` (the point is passed under it): asleep
+            let _ = w.kvs.verif_state();
+            d.get(a);
+            d.scan(0, nkeys - 1);
+            w.sched.release(blk);
+            // the head fails and leaves; the writers behind it must be woken and return
+            match join_bounded(t1, 30) {
+                Some(r) => others.extend(r),
+                None => stuck = Some("the failing write did not return".into()),
+            }
+            for (n, t) in [(2, t2), (3, t3)] {
+                match join_bounded(t, 8) {
+                    Some(r) => others.extend(r),
+                    None => stuck = Some(format!("writer {} did not return within 8 s of the return of the write that failed ahead of it", n)),
+                }
+            }
+            d.get(a);
+            d.get(c);
+            d.scan(0, nkeys - 1);
+        }
         _ => {
             desc = "probe".to_string();
             let blk = w.sched.block("kvs.write.logged", u64::MAX, u64::MAX);
@@ -1677,6 +2050,13 @@ fn add_stats(rec: &mut Recorder, prefix: &str, st: &Stats) {
         ("events", st.events),
         ("reader_tree_snapshots", st.tree_snapshots),
         ("reader_tree_snapshots_between_install_and_clear", st.tree_snapshots_between_install_and_clear),
+        ("failed_writes", st.failed_writes),
+        ("failed_writes_leaving_as_head", st.failed_at_head),
+        ("failed_writes_leaving_as_head_with_a_successor_asleep", st.failed_at_head_with_successor_asleep),
+        ("writes_failing_while_queued_behind_a_batch_mid_insert", st.failed_behind_batch_mid_insert),
+        ("failed_writes_leaving_out_of_turn", st.failed_left_out_of_turn),
+        ("snapshots_with_a_failing_write_linked", st.snaps_with_failed_write_linked),
+        ("writers_that_slept_in_the_wait_list", st.writers_that_slept_in_the_wait_list),
     ] {
         rec.add(&format!("{}.{}", prefix, k), v);
     }
@@ -1685,9 +2065,9 @@ fn add_stats(rec: &mut Recorder, prefix: &str, st: &Stats) {
 pub fn run(args: &Args) {
     let mut rec = Recorder::new(&args.out, args.only_case);
     install_hook();
-    let n_dir: u64 = if args.thorough { 45 } else { 12 };
+    let n_dir: u64 = if args.thorough { 60 } else { 18 };
     let n_dup: u64 = if args.thorough { 12 } else { 4 };
-    let n_rand: u64 = if args.thorough { 700 } else { 140 };
+    let n_rand: u64 = if args.thorough { 600 } else { 140 };
     let mut policy_note = String::new();
 
     // ---- case 0: the probe decides which read-timestamp policy the tree under test has -------
@@ -1725,7 +2105,7 @@ pub fn run(args: &Args) {
             rec.skip();
             continue;
         }
-        let variant = [0, 4, 1, 2][(i % 4) as usize];
+        let variant = [0, 4, 1, 2, 5, 6][(i % 6) as usize];
         match run_directed(args.seed, 1 + i, variant, completed) {
             Ok(out) => {
                 let an = analyse(&out.hist);
@@ -1810,7 +2190,7 @@ pub fn run(args: &Args) {
     }
     lsmtk::verif::set_pause_hook(None);
     rec.finish(
-        "one case = one recorded run of the real store (one request line = its whole event trace): a probe, directed schedules (snapshot between two inserts of a batch; writer in flight while a cursor is open; batch inserted behind a slower earlier writer; reader parked after cloning the tree version while the flush installs and clears), duplicate-key batches (D-16, only there), and random histories of 2..8 client threads (put/del/2..4-key batch/load/scan over 2..8 keys) with the flush loop and 1..3 compaction loops running and memtables of 64..4096 bytes; non-trivial = directed runs, and random runs in which a snapshot was taken while a writer was in flight and the memtable was rotated at least once; distinct by trace text",
+        "one case = one recorded run of the real store (one request line = its whole event trace): a probe, directed schedules (snapshot between two inserts of a batch; writer in flight while a cursor is open; batch inserted behind a slower earlier writer; reader parked after cloning the tree version while the flush installs and clears; a write that fails - empty batch / last key or value over-long - queued behind a batch parked between two inserts with readers in the window; a write that fails parked as head of the wait list with two writers asleep behind it), duplicate-key batches (D-16, only there), and random histories of 2..8 client threads (put/del/2..4-key batch/load/scan over 2..8 keys; in two thirds of the runs 3%, 12% or 30% of the operations are writes that must fail) with the flush loop and 1..3 compaction loops running and memtables of 64..4096 bytes; non-trivial = directed runs, and random runs in which a snapshot was taken while a writer was in flight and the memtable was rotated at least once; distinct by trace text",
         &[("read_timestamp_policy", json_str(&policy_note))],
     );
 }
